@@ -1,7 +1,7 @@
 """Per-property checks.  Each returns the process exit code (0 ok, 1 violation, 2 machinery broken)."""
 import os, sys, json, time, traceback
 from .core import (ModelError, Verdict, build_driver, run_tlc, SPEC, VERIF)
-from . import parsecheck, apicheck, printcheck
+from . import parsecheck, apicheck, printcheck, lexcheck, stress
 
 
 def seed_of():
@@ -178,7 +178,44 @@ def check_C05(tier, seed):
                          "over a schema of printable option kinds: print -> parse into a fresh context -> compare trees -> print -> parse -> print")
 
 
-CHECKS = {"C05": check_C05, "C19": check_C19, "C09": check_C09, "C10": check_C10, "C14": check_C14, "C07": check_C07, "C12": check_C12, "C01": check_C01, "C06": check_C06, "C15": check_C15}
+INV_LEX = ["P_C02_Total", "P_C02_Progress", "P_C03_RulesMeanRef", "P_C03_NoExpandInSQ", "P_C03_CommentsSilent",
+           "P_C06_Lines", "P_C02_ReturnsVerdict"]
+
+
+def run_lex(v, exe, cfgs, seed, tag):
+    for c in cfgs:
+        res = run_tlc("MC_Lex.tla", os.path.join("mc", c))
+        v.add_tlc(c, res, INV_LEX)
+        lexcheck.replay(v, exe, res, seed=seed, tag=tag)
+
+
+def check_C03(tier, seed):
+    v = Verdict("C03", tier, seed)
+    exe = build_driver("asan")
+    run_lex(v, exe, ["lex_dq_quick.cfg", "lex_sq_quick.cfg", "lex_comment_quick.cfg"], seed, "C03")
+    v.cov["exhaustive"] = True
+    return v.finish(rule="every byte string up to the length bound over the class representatives of each start condition "
+                         "(double-quoted, single-quoted, comment), embedded as 's=\"...' / 's=\'...' / '/*...'; environment: one variable "
+                         "set to a value with a meta character, one empty, one unset; the parsed value of s is compared byte for byte")
+
+
+def check_C02(tier, seed):
+    v = Verdict("C02", tier, seed)
+    exe = build_driver("asan")
+    run_lex(v, exe, ["lex_initial_quick.cfg", "lex_words_quick.cfg", "lex_dqesc_quick.cfg"], seed, "C02")
+    res = tlc_parse(v, "C02_parse_quick.cfg", INV_PARSE[2:])
+    parsecheck.replay(v, exe, res, aspects={"balance"}, seed=seed, renderings=("canonical",), tag="C02")
+    stress.run(v, exe, tier, tag="C02")
+    v.cov["exhaustive"] = True
+    return v.finish(rule="(a) every byte string up to the length bound over the class representatives of the INITIAL start condition and "
+                         "of the escape machinery, composed scanner+parser verdict compared; (b) every token sequence of the parser model "
+                         "(all error points) with heap/descriptor balance; (c) ~560 stress instances (10^5-deep nesting, 10^5..10^6-byte "
+                         "tokens in every lexical form, 10^4..10^5 list elements, directories and missing files as parse/include targets, "
+                         "self-include, every unterminated construct, every single byte 1..255). All under ASan/UBSan with stdout captured; "
+                         "after each input the context is printed, parsed into again and freed")
+
+
+CHECKS = {"C02": check_C02, "C03": check_C03, "C05": check_C05, "C19": check_C19, "C09": check_C09, "C10": check_C10, "C14": check_C14, "C07": check_C07, "C12": check_C12, "C01": check_C01, "C06": check_C06, "C15": check_C15}
 
 
 def main(argv):
